@@ -89,10 +89,32 @@ def clean_cases(prop):
             pass
 
 
+def needed_generated(targets):
+    """the generated files in the import cone of the given .vo targets (a translator that fails on a file no theorem
+    of this property depends on does not break this property's tie), plus Catalogue.v, which the case files import"""
+    need, seen = {"Catalogue.v"}, set()
+    todo = [COQ / t[:-1] for t in targets]           # x.vo -> x.v
+    while todo:
+        f = todo.pop()
+        if f in seen or not f.exists():
+            continue
+        seen.add(f)
+        txt = re.sub(r"\(\*.*?\*\)", "", f.read_text(), flags=re.S)
+        for m in re.finditer(r"From\s+(PDT|PDTGen)\s+Require\s+(?:Import|Export)\s+(.*?)\.\s", txt, flags=re.S):
+            for mod in m.group(2).split():
+                if m.group(1) == "PDTGen":
+                    need.add(mod + ".v")
+                    todo.append(COQ / "generated" / (mod + ".v"))
+                else:
+                    todo.append(COQ / "theories" / (mod.replace(".", "/") + ".v"))
+    return need
+
+
 def build(ctx, targets):
     with common.build_lock():
         ctx.gen_status = translate.regenerate()
-        bad = {k: v for k, v in ctx.gen_status.items() if v not in ("ok", "changed")}
+        need = needed_generated(targets)
+        bad = {k: v for k, v in ctx.gen_status.items() if v not in ("ok", "changed") and k in need}
         if bad:
             ctx.build_ok = False
             ctx.build_msg = "translator failed: " + json.dumps(bad)
